@@ -375,8 +375,6 @@ def run(R):
         R.saw(b)
         # the table writes a Code-typed local that flows into Status::new
         bbn, tn = b.call1(pat='status::Status::new')
-        code_local = mirlib.root_local(b, tn['args'][0])
-        eff = writers_of(b, code_local)
         # Err(None) block
         none_blocks = []
         for bb, i, p, a, ops in mirlib.aggregates(b, 'result::Result', 'Err'):
@@ -385,23 +383,28 @@ def run(R):
                 if ot[0] == 'agg' and ot[1].get('variant') == 'None':
                     none_blocks.append(bb)
         rel = lambda s: 'arg2' in s
-        start_candidates = [bb for bb in sorted(b.live_blocks()) if b.term(bb)['k'] == 'switch' and rel(classify_subject(b, bb))]
-        if not start_candidates:
-            raise CheckError('UNRECOGNISED: no switch on the HTTP status argument in infer_grpc_status')
-        start = min(start_candidates, key=lambda x: len(b.dominators().get(x, ())))
-        rows = decision_rows(b, start, set(eff) | set(none_blocks), relevant=rel)
+        # the table by feasible path: constraints on the HTTP status argument -> the Code handed to Status::new (or Err(None))
+        meta = {}
+        prow = mirlib.path_rows(b, stop={bbn} | set(none_blocks), relevant=rel, meta=meta, limit=200000)
         table = {}
         default = None
-        for cons, bb in rows:
+        start = bbn
+        for cons, path in prow:
+            if path[-1] != bbn and path[-1] not in none_blocks:
+                continue
             d = cons_dict(cons)
             eqs = [v for k, v in d.items() if v[0] == '==']
-            if bb in none_blocks:
+            ins = [v for k, v in d.items() if v[0] == 'in']
+            if path[-1] in none_blocks:
                 val = 'Err(None)'
             else:
-                val = variant_of(block_writes(b, bb, code_local))
-            if eqs:
-                table[eqs[0][1]] = val
-            else:
+                cv = strip_refs(mirlib.simplify(b.origin_on_path(tn['args'][0], path)))
+                val = cv[1].get('variant') if cv[0] == 'agg' else show(cv)[:40]
+            keys_ = [eqs[0][1]] if eqs else (list(ins[0][1]) if ins else [])
+            if keys_:
+                for k_ in keys_:
+                    table[k_] = val
+            elif any(k.startswith('arg2') or 'arg2' in k for k in d):
                 default = val
         for k, v in hs['map'].items():
             R.eq(table.get(int(k)), v, 'C04.R6', 'http:%s' % k, site(b), 'Code for HTTP %s' % k)
